@@ -2,9 +2,10 @@
 
 ID = "C13"
 HARNESS_TEST = "TestC13"
-COQ_MODEL = ["C13/Check.v"]
+GEN = "c13"
+COQ_MODEL = ["C13/Check.v", "Gen/C13Facts.v"]
 COQ_PROOF_DEPS = ["C13/Arith.v", "C13/Proofs.v"]
-COQ_OBLIG = ["C13/Property.v"]
+COQ_OBLIG = ["C13/Property.v", "Gen/C13Oblig.v"]
 CASES_HEADER = "Require Import Nib.C13.Model Nib.C13.Spec Nib.C13.Check."
 CASE_TYPE = "case"
 MISMATCH_FN = "mismatch"
@@ -27,8 +28,24 @@ ASSUMPTIONS = [
 TRUSTED = ["coq/Lib/Dec.v as a description of cosmossdk.io/math LegacyDec (exercised by every mint of every case)"]
 
 
+# Big numerals are slow to parse in Coq 8.16 (about 1 ms each): every distinct big number of a case is bound once by a
+# `let` in front of the case term and referred to by name.
+_tab = {}
+
+
 def z(n):
-    return "(%d)%%Z" % int(n)
+    n = int(n)
+    if -1000 < n < 1000:
+        return "(%d)%%Z" % n
+    if n not in _tab:
+        _tab[n] = "a%d" % len(_tab)
+    return _tab[n]
+
+
+def _with_lets(term):
+    lets = "".join("let %s := (%d)%%Z in " % (name, n) for n, name in sorted(_tab.items(), key=lambda kv: int(kv[1][1:])))
+    _tab.clear()
+    return "(%s%s)" % (lets, term)
 
 
 def zl(xs):
@@ -72,6 +89,11 @@ def _out(o):
 
 
 def to_coq_case(rec):
+    _tab.clear()
+    return _with_lets(_to_coq_case(rec))
+
+
+def _to_coq_case(rec):
     i, o = rec["input"], rec["obs"]
     unset = i.get("period") is None or i.get("skipped") is None
     init = "{| s_params := %s; s_period := %s; s_skipped := %s; s_module := %s |}" % (
@@ -181,20 +203,29 @@ def signature(rec):
             "ops": sorted({op["op"] for op in i["ops"]})}
 
 
+def input_size(inp):
+    return len(inp["ops"])
+
+
 def shrink_candidates(inp):
+    """prefixes first (a failing history usually fails early), then single non-day ops, then single day ends
+    (renumbering the later ones so that the epoch numbers stay consecutive)"""
     out = []
     ops = inp["ops"]
-    # drop a non-day op (dropping a day end breaks the consecutive numbering: renumber the rest)
-    for i in range(len(ops)):
+    n = len(ops)
+    for k in (1, 2, 3, 4, 6, 8, 12, 16, 24, 32, 48):
+        if k < n:
+            out.append(dict(inp, ops=ops[:k]))
+    singles = [i for i in range(n) if not (ops[i]["op"] == "end" and ops[i].get("day"))]
+    days = [i for i in range(n) if ops[i]["op"] == "end" and ops[i].get("day")]
+    for i in (singles + days)[:45]:
         rest = [dict(o) for o in ops[i + 1:]]
         if ops[i]["op"] == "end" and ops[i].get("day"):
             for o in rest:
                 if o["op"] == "end" and o.get("day"):
                     o["e"] -= 1
-        if len(ops) > 1:
+        if n > 1:
             out.append(dict(inp, ops=ops[:i] + rest))
-    if len(ops) > 4:
-        out.insert(0, dict(inp, ops=ops[:len(ops) // 2]))
     return out
 
 
